@@ -401,7 +401,15 @@ class Ctx:
 
         trace = os.environ.get("VERIF_TRACE")
 
+        # Hypothesis always starts with the simplest example of a strategy.
+        # With few cases per shard (expensive families) every shard would
+        # spend one of them on that same case: only shard 0 runs it.
+        skip_simplest = [self.shard != 0]
+
         def test(case: Any) -> None:
+            if skip_simplest[0]:
+                skip_simplest[0] = False
+                return
             if trace:  # debugging aid: the case being executed right now
                 with open(f"{trace}.{ctx.prop}.{ctx.shard}", "w",
                           encoding="utf-8") as tf:
@@ -419,8 +427,8 @@ class Ctx:
         if shrink:
             phases.append(Phase.shrink)
         runner = settings(
-            max_examples=n, database=None, deadline=None,
-            report_multiple_bugs=False, derandomize=False,
+            max_examples=n + (1 if skip_simplest[0] else 0), database=None,
+            deadline=None, report_multiple_bugs=False, derandomize=False,
             suppress_health_check=list(HealthCheck), phases=phases,
             print_blob=False)(
             seed(derive_seed(self.seed, self.prop, sub, self.shard))(
